@@ -803,7 +803,8 @@ func (g *cssGen) declaration() string {
 		val = r.Pick([]string{"none", "underline", "UNDERLINE", "underline dotted red", "center", "Block", "absolute", "hidden", "pointer", "url(c.cur), auto", "nowrap", "middle", "left", "inherit", "initial", "unset", "line-through #F00", "baseline", "0"})
 	case 27:
 		name = r.Pick([]string{"-webkit-box-shadow", "-moz-border-radius", "-ms-filter", "filter", "zoom", "-webkit-transition", "behavior", "-x-unknown", "unknown-prop", "Foo"})
-		val = r.Pick([]string{"0 0 0 #F00", "5px", "alpha(opacity=50)", "1", "all 0s", "url(x.htc)", "A  B", "1PX SOLID RED", "foo( 1 , 2 )", "#ABCDEF", "0.0", "progid:DXImageTransform.Microsoft.gradient(startColorstr='#80000000', endColorstr='#80000000')"})
+		val = r.Pick([]string{"0 0 0 #F00", "5px", "alpha(opacity=50)", "1", "all 0s", "url(x.htc)", "A  B", "1PX SOLID RED", "foo( 1 , 2 )", "#ABCDEF", "0.0", "progid:DXImageTransform.Microsoft.gradient(startColorstr='#80000000', endColorstr='#80000000')",
+			"\"progid:DXImageTransform.Microsoft.Alpha(Opacity=50)\"", "'progid:DXImageTransform.Microsoft.Alpha(Opacity=80)'", "'alpha(opacity=25)'"})
 	case 28:
 		name = "src"
 		val = r.Pick([]string{"url(a.woff2) format(\"woff2\"), url('a.woff') format('woff')", "local(\"My Font\"), url(f.ttf)", "local('Arial')", "local(Font  Name)"})
